@@ -157,11 +157,14 @@ impl Obs {
 
         // Welcome: exactly the init keys of the joiners of this commit
         if !info.external {
-            let mut want: Vec<Vec<u8>> = info.joined.iter().filter_map(|j| w.last_kp.get(j).and_then(|b| init_key_of(b))).collect();
-            want.sort();
-            let mut got: Vec<Vec<u8>> = welcome_seals.iter().map(|s| s.remote.clone()).collect();
-            got.sort();
-            if got != want {
+            // one seal per joiner, to the init key of one of the key packages that joiner published
+            let got: Vec<Vec<u8>> = welcome_seals.iter().map(|s| s.remote.clone()).collect();
+            let per_joiner_ok = info.joined.iter().all(|j| {
+                let mine: Vec<Vec<u8>> = w.all_kps.get(j).map(|v| v.iter().filter_map(|b| init_key_of(b)).collect()).unwrap_or_default();
+                got.iter().filter(|g| mine.contains(g)).count() == 1
+            });
+            let want = &info.joined;
+            if got.len() != info.joined.len() || !per_joiner_ok {
                 return Err(fail(
                     "joiner_secret_recipients_differ_from_added_key_packages",
                     format!("epoch {}: {} Welcome seals, {} members joined through this commit", w.epoch, got.len(), want.len()),
